@@ -19,7 +19,8 @@ META = dict(technique='Coq proof (counter/monitor invariants for every algorithm
 
 _generate = SC.make_generate(**dict(allow_vector=True))
 _oracle = SC.oracle_c04
-generate, run_impl, oracle = SC.with_extras(_generate, SC.run_impl, _oracle, {"collapse": (0.12, SC.gen_collapse, SC.run_collapse, SC.oracle_collapse), "wrapper": (0.08, SC.gen_wrapper, SC.run_wrapper, SC.oracle_wrapper)})
+generate, run_impl, oracle = SC.with_extras(_generate, SC.run_impl, _oracle, {"collapse": (0.12, SC.gen_collapse, SC.run_collapse, SC.oracle_collapse), "wrapper": (0.08, SC.gen_wrapper, SC.run_wrapper, SC.oracle_wrapper),
+                                                                                 "restart": (0.06, SC.gen_restart, SC.run_restart, SC.oracle_restart)})
 coq_preamble = SC.coq_preamble
 coq_terms = SC.make_coq_terms('(mk_mask false true true true true false true true)')
 coq_debug = SC.coq_debug
